@@ -524,10 +524,18 @@ func (l *IPFSLog) Join(otherLog iface.IPFSLog, size int) (iface.IPFSLog, error) 
 		return l, nil
 	}
 
+	// Take a consistent snapshot of the other log before locking this one:
+	// heads first, then entries, so that (logs being append-only) the entries
+	// contain the whole history of those heads even if the other log is
+	// appended to in between, and so that two logs joining each other never
+	// wait for each other's lock while holding their own.
+	otherHeads := otherLog.RawHeads()
+	otherEntries := otherLog.GetEntries()
+
 	l.lock.Lock()
 	defer l.lock.Unlock()
 
-	newItems := difference(otherLog.GetEntries(), otherLog.RawHeads().Slice(), l)
+	newItems := difference(otherEntries, otherHeads.Slice(), l)
 
 	wg := &sync.WaitGroup{}
 	wg.Add(newItems.Len())
@@ -584,7 +592,7 @@ func (l *IPFSLog) Join(otherLog iface.IPFSLog, size int) (iface.IPFSLog, error) 
 		}
 	}
 
-	mergedHeads := entry.FindHeads(l.heads.Merge(otherLog.RawHeads()))
+	mergedHeads := entry.FindHeads(l.heads.Merge(otherHeads))
 
 	for idx, e := range mergedHeads {
 		// notReferencedByNewItems
